@@ -1,8 +1,8 @@
 (* Extract_restrict.v — extraction of slice restrict (Restrict + the value stores of slice types) to model_restrict.ml *)
 From Coq Require Extraction ExtrOcamlBasic.
-From LY Require Import Base TypesMisc IntLex Dec64 Restrict.
+From LY Require Import Base TypesMisc IntLex Dec64 Restrict RestrictStr.
 Extraction Language OCaml.
 Extraction "model_restrict.ml"
   N.add N.mul N.div N.modulo N.sub Z.add Z.mul Z.opp Z.of_N Z.abs_N Z.sub Z.ltb
   TypesMisc.validate_range IntLex.int_store Dec64.dec64_store
-  Restrict.compile_range Restrict.compile_chain.
+  Restrict.compile_range Restrict.compile_chain RestrictStr.compile_str_chain.
